@@ -859,9 +859,21 @@ template <typename R>
 struct StubGen
 {
   typedef R result_type;
-  R lo, hi, v;
-  R min() const { return lo; }
-  R max() const { return hi; }
+  // min()/max() are static, as for every standard engine (a tree may call them as G::min()); the harness is
+  // single-threaded per process, so the span lives in class statics
+  static R &lo_ref()
+  {
+    static R x = 0;
+    return x;
+  }
+  static R &hi_ref()
+  {
+    static R x = 0;
+    return x;
+  }
+  R v;
+  static R min() { return lo_ref(); }
+  static R max() { return hi_ref(); }
   R operator()() { return v; }
 };
 template <typename R>
@@ -883,8 +895,8 @@ template <typename T, typename R>
 static void check_urd_stub(R gmin, R gmax, R gval, T lo, T hi)
 {
   StubGen<R> g;
-  g.lo = gmin;
-  g.hi = gmax;
+  StubGen<R>::lo_ref() = gmin;
+  StubGen<R>::hi_ref() = gmax;
   g.v = gval;
   ru::uniform_real_distribution<T> d(lo, hi);
   const T v = d(g);
